@@ -95,8 +95,8 @@ def oracle_c08(case: dict, obs: dict) -> list[tuple[dict, str]]:
             late = [w for w in ws if w["t"] > rec["t_done"] + EPS]
             if late:
                 out.append(({"clause": "transmitted-after-answer"}, f"caller {i} answered at {rec['t_done']} but {frames[i]!r} written again at {late[0]['t']}"))
-        if not unique or has_faults(case) or not ws:
-            continue
+        if not unique or has_faults(case) or not ws or case.get("script") or case.get("foreign"):
+            continue  # back-off / no-fewer are judged only when nothing but this command's own (scripted) fates is on the air
         # silent = neither echo nor reply is ever delivered for that attempt
         silent = [(fates.get(f"{i}:{a}", default_fate).get("echo") is None and fates.get(f"{i}:{a}", default_fate).get("reply") is None)
                   for a in range(1, n + 1)]
